@@ -26,7 +26,7 @@ BStar2 == {"**/a", "**/b.c", "a/**", "a/**/b.c", "**", "A/**", "**/A/*", "b**c"}
 BSlash == {"a/a", "a/b.c", "a/*", "*/a", "*/b.c", "a/A", "A/b.c", "a/b.c/a", "a/*/b.c", "a/?", "d./a", "*/d."}
 Bodies == BLit \cup BWild \cup BStar2 \cup BSlash
 BlankBodies == {"a", "*", "a/a", "d."}
-BlankSuffixes == {" ", "\\ ", "  ", "\\  ", "/ ", " \\ "}
+BlankSuffixes == {" ", "\\ ", "  ", "\\  ", "/ ", " \\ ", "\t"}     \* (a tab is not a trailing space for git)
 Specials == {"#", "#a", "# a", "#!a", "\\#a", "\\!a", "!\\!a", "!\\#a", "\\!a/", "\\#a ", " ", "!", "a\\ /"}
 
 Compose(P, B, S) == {p \o b \o s : p \in P, b \in B, s \in S}
@@ -53,27 +53,33 @@ Seed(t, ci, fam, l1, l2) == [t |-> t, ci |-> ci, fam |-> fam, l1 |-> l1, l2 |-> 
 
 MCScenariosOf(sd) ==
   CASE sd.fam = "single" -> {Mk(sd.t, sd.ci, <<sd.l1>>, <<>>), Mk(sd.t, sd.ci, <<>>, <<sd.l1>>)}
+    [] sd.fam = "single_sub" -> {Mk(sd.t, sd.ci, <<>>, <<sd.l1>>)}      \* (T3 differs from T2 only in `sub`)
     [] sd.fam = "pairs"  -> UNION {{Mk(sd.t, sd.ci, <<sd.l1, l2>>, <<>>), Mk(sd.t, sd.ci, <<l2, sd.l1>>, <<>>)} : l2 \in PB}
     [] sd.fam = "nest"   -> {Mk(sd.t, sd.ci, <<sd.l1>>, <<s>>) : s \in PS}
     \* three lines (thorough)
     [] sd.fam = "triples" -> UNION {{Mk(sd.t, sd.ci, <<sd.l1, sd.l2, l3>>, <<>>), Mk(sd.t, sd.ci, <<sd.l1, l3, sd.l2>>, <<>>),
                                      Mk(sd.t, sd.ci, <<l3, sd.l2, sd.l1>>, <<>>)} : l3 \in PC}
-    [] sd.fam = "nest21" -> UNION {{Mk(sd.t, sd.ci, <<sd.l1, sd.l2>>, <<s>>), Mk(sd.t, sd.ci, <<sd.l2, sd.l1>>, <<s>>)} : s \in PS}
+    [] sd.fam = "nest21" -> {Mk(sd.t, sd.ci, <<sd.l1, sd.l2>>, <<s>>) : s \in PS}
+    [] sd.fam = "nest21r" -> {Mk(sd.t, sd.ci, <<sd.l2, sd.l1>>, <<s>>) : s \in PS}
     [] sd.fam = "nest12" -> {Mk(sd.t, sd.ci, <<sd.l1>>, <<sd.l2, s>>) : s \in PS}
 
 QuickSeeds ==
-  {Seed(t, FALSE, "single", l, "") : t \in Trees, l \in SingleLines}
-  \cup {Seed(t, TRUE, "single", l, "") : t \in {T1, T2}, l \in SingleLines}
+  {Seed(t, FALSE, "single", l, "") : t \in {T1, T2}, l \in SingleLines}
+  \cup {Seed(T3, FALSE, "single_sub", l, "") : l \in SingleLines}
+  \cup {Seed(T1, TRUE, "single", l, "") : l \in SingleLines}
+  \cup {Seed(T2, TRUE, "single", l, "") : l \in Compose({"", "!/"}, BLit \cup BSlash, {"", "/"})}
   \cup {Seed(t, FALSE, "pairs", l, "") : t \in {T1, T2}, l \in PA}
   \cup {Seed(t, FALSE, "nest", l, "") : t \in Trees \cup {T4}, l \in PA \cup PNegRoot}
   \cup {Seed(T1, TRUE, "pairs", l, "") : l \in {"a", "A", "a/*"}}
 
 ThoroughSeeds ==
-  {Seed(t, ci, "single", l, "") : t \in Trees, ci \in BOOLEAN, l \in SingleLines}
-  \cup {Seed(t, ci, "pairs", l, "") : t \in Trees, ci \in BOOLEAN, l \in PA}
+  {Seed(t, ci, "single", l, "") : t \in {T1, T2}, ci \in BOOLEAN, l \in SingleLines}
+  \cup {Seed(T3, ci, "single_sub", l, "") : ci \in BOOLEAN, l \in SingleLines}
+  \cup {Seed(t, ci, "pairs", l, "") : t \in {T1, T2}, ci \in BOOLEAN, l \in PA}
   \cup {Seed(t, ci, "nest", l, "") : t \in Trees \cup {T4}, ci \in BOOLEAN, l \in PA \cup PNegRoot}
   \cup {Seed(t, FALSE, "triples", l1, l2) : t \in {T1, T2}, l1 \in PA, l2 \in PB}
   \cup {Seed(t, FALSE, "nest21", l1, l2) : t \in Trees \cup {T4}, l1 \in PA, l2 \in PB}
+  \cup {Seed(T1, FALSE, "nest21r", l1, l2) : l1 \in PA, l2 \in PB}
   \cup {Seed(t, FALSE, "nest12", l1, l2) : t \in Trees, l1 \in PA \cup PNegRoot, l2 \in PS}
 
 \* a tiny configuration for smoke tests
